@@ -3,7 +3,7 @@
     C11/Proofs.v (or Common/Buf.v).  Each [Theorem] here is one obligation of
     the check; [Print Assumptions] is run on each by the audit stage. *)
 From Coq Require Import List Arith NArith Lia.
-From SV Require Import Common.Buf C11.Model C11.Proofs.
+From SV Require Import Common.Buf C11.Model C11.Proofs C11.Delivery.
 Import ListNotations.
 
 (** 1. The buffer discipline [position <= end <= capacity] survives every
@@ -136,6 +136,25 @@ Theorem writable_sends_prefix_in_order :
               dat (back c') = skipn k (dat (back c)).
 Proof. exact writable_spec. Qed.
 
+(** 10. THE delivery theorem (statement of the property, read side): any list
+        of decodable messages whose frames fit the ceiling, cut into ANY chunks
+        (any sizes, any number — one byte at a time, everything at once, frame
+        boundaries anywhere), on a fresh channel of ANY initial size up to the
+        ceiling: with a READABLE event and one owner turn after each arrival
+        (would-block wherever the chunk ends), the owner sees exactly those
+        messages, once each, in order, and no error.  [fuel] only bounds the
+        owner's loop and any value above the stated threshold gives the same
+        result. *)
+Theorem delivery_any_chunking :
+  forall (decodable : list N -> bool) (ps : list (list N)) (chunks : list (list N))
+         (init max fuel : nat),
+    init <= max -> delimiter_size <= max -> (N.of_nat max < 2 ^ 64)%N ->
+    Forall (fun p => delimiter_size + length p <= max /\ decodable p = true) ps ->
+    concat chunks = stream ps ->
+    length ps + 2 * length (stream ps) + 1 < fuel ->
+    feed decodable fuel (new_chan init max) empty_sock chunks = map Ok ps.
+Proof. exact delivery_any_chunking_lemma. Qed.
+
 (* ---------------------------------------------------------------------- *)
 (** Non-vacuity: concrete reachable states meeting the hypotheses above. *)
 
@@ -168,3 +187,12 @@ Example ex_grows_and_shrinks :
               [AArrive (frame (repeat 7%N 40)); AEvent true false; ATurn 50] (new_chan 16 64, empty_sock) in
   cap (front (fst st)) = 16 /\ dat (front (fst st)) = [].
 Proof. vm_compute. split; reflexivity. Qed.
+
+(** the delivery theorem's hypotheses are satisfiable, and the model computes
+    what it promises on a byte-at-a-time schedule that forces growth *)
+Example ex_delivery_byte_by_byte :
+  let ps := [ex_payload; repeat 7%N 30; []; ex_payload] in
+  let wire := stream ps in
+  feed ex_dec 400 (new_chan 4 64) empty_sock (map (fun b => [b]) wire) = map Ok ps /\
+  Forall (fun p => delimiter_size + length p <= 64 /\ ex_dec p = true) ps.
+Proof. split; [vm_compute; reflexivity|repeat constructor; vm_compute; lia]. Qed.
